@@ -193,3 +193,43 @@ pub fn from_quill_diff(q: &MappingsDiff) -> Result<DiffSet> {
     }
     Ok(d)
 }
+
+fn q_act<T: TryFrom<JavaString, Error = anyhow::Error>>(a: &Act) -> Result<Action<T>> {
+    Ok(match a {
+        Act::None => Action::None,
+        Act::Add(b) => Action::Add(T::try_from(js(b))?),
+        Act::Remove(a) => Action::Remove(T::try_from(js(a))?),
+        Act::Edit(a, b) => Action::Edit(T::try_from(js(a))?, T::try_from(js(b))?),
+    })
+}
+fn q_doc(a: &Act) -> Action<JavadocMapping> {
+    match a {
+        Act::None => Action::None,
+        Act::Add(b) => Action::Add(JavadocMapping(b.clone())),
+        Act::Remove(a) => Action::Remove(JavadocMapping(a.clone())),
+        Act::Edit(a, b) => Action::Edit(JavadocMapping(a.clone()), JavadocMapping(b.clone())),
+    }
+}
+
+/// Builds quill's in-memory diff tree from the model (public fields only).
+pub fn to_quill_diff(d: &DiffSet) -> Result<MappingsDiff> {
+    use quill::tree::mappings_diff::{ClassNowodeDiff, FieldNowodeDiff, MethodNowodeDiff, ParameterNowodeDiff};
+    let mut q = MappingsDiff::default();
+    for (k, c) in &d.classes {
+        let mut qc = ClassNowodeDiff { info: q_act::<ObjClassName>(&c.act)?, javadoc: q_doc(&c.doc), ..Default::default() };
+        for (fk, f) in &c.fields {
+            let (name, desc) = split_mkey(fk);
+            qc.fields.insert(FieldNameAndDesc { desc: js(desc).try_into()?, name: js(name).try_into()? }, FieldNowodeDiff { info: q_act::<FieldName>(&f.act)?, javadoc: q_doc(&f.doc) });
+        }
+        for (mk, m) in &c.methods {
+            let (name, desc) = split_mkey(mk);
+            let mut qm = MethodNowodeDiff { info: q_act::<MethodName>(&m.act)?, javadoc: q_doc(&m.doc), ..Default::default() };
+            for (pi, p) in &m.params {
+                qm.parameters.insert(ParameterKey { index: *pi }, ParameterNowodeDiff { info: q_act::<ParameterName>(&p.act)?, javadoc: q_doc(&p.doc) });
+            }
+            qc.methods.insert(MethodNameAndDesc { desc: js(desc).try_into()?, name: js(name).try_into()? }, qm);
+        }
+        q.classes.insert(js(k).try_into()?, qc);
+    }
+    Ok(q)
+}
